@@ -460,10 +460,15 @@ func (s *Sim) checkKeep(v *view, op string) {
 					s.alarm("C02", "non-deployment-pod-ip-moved-to-pool-reserve:"+wl.Kind.String(), fmt.Sprintf(
 						"%s of %s pod key %q was re-keyed to the reserve %q: the identity lost its IP", ip, wl.Kind, prev.Key, cur.Key))
 				} else if wl.Pool == "" && pol == 1 {
+					// several unbinds of the app may share one step (a resync pass): what counts is what the app still
+					// holds after the releases of this step
 					cnt := 0
 					pre := s.prefixKey(wl)
-					for _, e := range s.prevDump {
+					for pip, e := range s.prevDump {
 						if strings.HasPrefix(e.Key, pre) {
+							if c2, in2 := v.dump[pip]; in2 && c2.Key == "" {
+								continue // released in this very step
+							}
 							cnt++
 						}
 					}
@@ -757,6 +762,7 @@ func (s *Sim) checkProvider(v *view) {
 // quiesce delivers every pending event, drains the release queue (each event retried to success or its 4th
 // failure) and runs exactly one resync pass; then evaluates the release-policy reference model.
 func (s *Sim) quiesce() {
+	s.frozenSinceFilter = false // events are delivered and passes run: the world a filter saw is gone
 	guard := 0
 	for (s.W.PendingAll() > 0 || len(s.W.Releases) > 0) && guard < 2000 && s.ownAlarms() == 0 {
 		guard++
